@@ -573,7 +573,11 @@ func (c *wsConn) handleCall(ctx context.Context, frame frame) {
 
 			if !keepctx {
 				cancel()
-				delete(c.handling, frame.ID)
+				// after a reconnect the registry has been reset and the peer numbers
+				// its requests afresh: the entry under this id belongs to a newer call
+				if atomic.LoadUint64(&c.connGen) == gen {
+					delete(c.handling, frame.ID)
+				}
 			}
 		}
 	}
